@@ -1,9 +1,9 @@
-CONSTANTS MaxRows = 4
+CONSTANTS MaxRows = 3
           MaxBatches = 3
           NKeyVals = 2
           NKeys = 2
           SpecCodes = {0, 1, 2, 3, 4, 5, 6, 7, 8, 9, 10, 11, 12, 13, 14, 15}
-          SplitFanIns = {8, 2}
+          SplitFanIns = {8}
           Singles = {}
           Fetches = {99, 2}
           NoFetch = 99
